@@ -28,7 +28,7 @@ case "$CMD" in
  run)
   ID="$3"; TIER="${4:-quick}"
   mkdir -p "$WS/verif"
-  rsync -a --delete /verif/harness/ "$WS/harness/"
+  rsync -rlpc --delete /verif/harness/ "$WS/harness/"
   grep -rl '/repo/' "$WS/harness" --include=Cargo.toml | xargs sed -i "s#\"/repo/#\"$WS/repo/#g"
   sed -i "s#target-dir = .*#target-dir = \"$WS/target\"#" "$WS/harness/.cargo/config.toml"
   cp /verif/known_findings.json "$WS/verif/" 2>/dev/null
